@@ -47,6 +47,10 @@ type Opts struct {
 	// SkipUnknown: the compiler option that tolerates references into modules that are not loaded (imports of absent
 	// modules, their types and extensions).  It tolerates nothing else: a prefix no import binds is still an error.
 	SkipUnknown bool
+	// PriorFilters: the same parse trees are compiled with each of these filters first (a nil entry: without a filter),
+	// the results thrown away: parse trees may be compiled again (compile.CompileDirKeepMods hands them back for that)
+	PriorFilters []compile.SchemaFilter
+	HasPrior     bool
 	// CRLF: the texts rendered from the model are given CR LF line ends (Compile only)
 	CRLF bool
 }
@@ -91,6 +95,11 @@ func CompileTexts(names []string, texts []string, o Opts) (res Result) {
 		feats := o.Features
 		if feats == nil {
 			feats = compile.FeaturesFromNames(true)
+		}
+		if o.HasPrior {
+			for _, pf := range o.PriorFilters {
+				compile.CompileParseTrees(nil, trees, feats, o.SkipUnknown, pf)
+			}
 		}
 		ms, err := compile.CompileParseTrees(nil, trees, feats, o.SkipUnknown, o.Filter)
 		r.MS, r.Err = ms, err
